@@ -361,8 +361,10 @@ class Ctx:
         ev = {"property_id": self.pid, "tier": self.tier, "seed": self.seed, "level": "model_checking",
               "coverage": cov, "assumptions": self.assumptions, "wall_s": round(wall, 1),
               "violations": len(self.violations)}
-        os.makedirs(os.path.join(VERIF, "evidence"), exist_ok=True)
-        with open(os.path.join(VERIF, "evidence", self.pid + ".json"), "w") as f:
+        # (VERIF_EVIDENCE_DIR: development sweeps over seeds must not overwrite the committed evidence)
+        evdir = os.environ.get("VERIF_EVIDENCE_DIR") or os.path.join(VERIF, "evidence")
+        os.makedirs(evdir, exist_ok=True)
+        with open(os.path.join(evdir, self.pid + ".json"), "w") as f:
             json.dump(ev, f, indent=1)
         shutil.rmtree(self.work, ignore_errors=True)
         log("[done] %s tier=%s seed=%d: states=%d transitions=%d traces_ok=%d/%d violations=%d wall=%.1fs" %
